@@ -5,7 +5,7 @@ import json
 notes={
 'C01':'as planned; pair lemmas + functional contracts of the whole wire path; the special-case printer\'s text for os/net wrapper types (it must equal the head of the type\'s own `Error()`, which is what `extractPrefix` ships); API forwarders (`#forwards`); ownership obligations for the encoding path (no drift on re-encoding). 1 known finding (net.OpError `src -> addr`)',
 'C02':'as planned + the message-fidelity contracts (extractPrefix, opaque `Error()`, DecodeError/decodeLeaf/decodeWrapper): the mark is message + type chain; oserror predicates ask about the right sentinel',
-'C03':'sink sweep over all `redact.Safe` sites, conversions to redactable types as sinks (`rsafe`), SafeDetails/GetSafeDetails/Fill/GetAllSafeDetails safety, registered-encoder sweep, wire invariant `safeEnc`, special-case printer, **the rendering path** (rsEntries invariant, printEntry/formatEntries/formatSingleLineOutput keep "the final buffer keeps PII inside markers", finishDisplay requires it, formatErrorInternal proves it on every path), **constructor sweep** (every function that allocates a type carrying a C03 invariant is verified under C03), **format-string discipline** (`#formatarg.N`), printer delegation, the Sentry report's verbose text (`Redact()` receiver obligation). Not covered: the other Sentry fields, redact internals (T7)',
+'C03':'sink sweep over all `redact.Safe` sites, conversions to redactable types as sinks (`rsafe`), SafeDetails/GetSafeDetails/Fill/GetAllSafeDetails safety, registered-encoder sweep, wire invariant `safeEnc`, special-case printer, **the rendering path** (rsEntries invariant, printEntry/formatEntries/formatSingleLineOutput keep "the final buffer keeps PII inside markers", finishDisplay requires it, formatErrorInternal proves it on every path), **constructor sweep** (every function that allocates a type carrying a C03 invariant is verified under C03), **format-string discipline** (`#formatarg.N`), printer delegation, the verbose text of the Sentry report (`Redact()` receiver obligation). Not covered: the other Sentry fields, redact internals (T7)',
 'C04':'as planned + opaque carriers\' `SafeFormatError` (which error the engine continues with), ownership obligations for the encoding path; barrier message at unknowing receivers is the recorded finding',
 'C05':'as planned (sweep over registered decoders and all error-type methods)',
 'C06':'escaping discipline as content contracts over `wfR` (see §10.2), conversion sinks, structural `Format` delegation (shared with C09), printer delegation, mode independence (`#modeindep`). Byte-level balance lives in redact (T7) and in one `assumes` clause of collectEntry; congruence is decided only as far as "every Format goes through the one engine"',
